@@ -163,6 +163,24 @@ func execGcs(c Case) string {
 				b.AddEntry(unhx(t[1]))
 			case "h":
 				b.SetKeyFromHash(mkHash(unhx(t[1])))
+			case "A": // AddEntries
+				b.AddEntries(expandItems(t[1]))
+			case "w": // w:<ctor>:<key or hash>:<p>:<n>:<m>  one of the With* constructors (a fresh builder)
+				kk, P, N, M := unhx(t[2]), uint8(atoi(t[3])), uint32(atou(t[4])), atou(t[5])
+				switch t[1] {
+				case "kpnm":
+					b = builder.WithKeyPNM(gkey(t[2]), P, N, M)
+				case "kpm":
+					b = builder.WithKeyPM(gkey(t[2]), P, M)
+				case "k":
+					b = builder.WithKey(gkey(t[2]))
+				case "hpnm":
+					b = builder.WithKeyHashPNM(mkHash(kk), P, N, M)
+				case "hpm":
+					b = builder.WithKeyHashPM(mkHash(kk), P, M)
+				case "h":
+					b = builder.WithKeyHash(mkHash(kk))
+				}
 			}
 		}
 		k, kerr := b.Key()
@@ -433,8 +451,17 @@ func genC14(r *Rng, tier string, emit func(Case)) {
 		q := genItems(r, 1+r.Intn(4)) + ";" + "seq:" + itoa(r.Pick(1, 5, 40)) + ":7"
 		e("gcsraw", "nbytes", hx(r.Bytes(16)), itoa(r.Intn(34)), u64s(pickM(r, 8)), "-", hx(append(pre, raw...)), q)
 		e("gcsraw", "bytes", hx(r.Bytes(16)), itoa(r.Intn(34)), u64s(pickM(r, 8)), u64s(uint64(r.Pick(0, 1, 2, 10, 4294967295, 1000))), hx(raw), q)
-		// builder chains with error latch
+		// builder chains with error latch; a third of them start from one of the With* constructors
 		ops := []string{}
+		if r.Intn(3) == 0 {
+			ct := []string{"kpnm", "kpm", "k", "hpnm", "hpm", "h"}[r.Intn(6)]
+			kl := 16
+			if ct[0] == 'h' {
+				kl = 32
+			}
+			ops = append(ops, "w:"+ct+":"+hx(r.Bytes(kl))+":"+itoa(r.Pick(0, 1, 19, 20, 32, 33))+":"+itoa(r.Pick(0, 1, 100))+":"+
+				u64s(uint64(r.Pick(0, 1, 784931, 4294967295))+uint64(r.Intn(2))))
+		}
 		for j := 0; j < r.Intn(8); j++ {
 			switch r.Intn(6) {
 			case 0:
@@ -445,6 +472,8 @@ func genC14(r *Rng, tier string, emit func(Case)) {
 				ops = append(ops, "m:"+u64s(uint64(r.Pick(0, 1, 784931, 4294967295))+uint64(r.Intn(2))))
 			case 3:
 				ops = append(ops, "h:"+hx(r.Bytes(32)))
+			case 4:
+				ops = append(ops, "A:"+hx(r.Bytes(1+r.Intn(2)))+","+hx(r.Bytes(1+r.Intn(3))))
 			default:
 				it := r.Bytes(1 + r.Intn(3))
 				ops = append(ops, "a:"+hx(it))
@@ -458,6 +487,21 @@ func genC14(r *Rng, tier string, emit func(Case)) {
 				var v uint64
 				if len(op) > 2 {
 					v = atouSafe(op[2:])
+				}
+				if op[0] == 'w' {
+					f := strings.Split(op, ":")
+					wp, wm := atouSafe(f[3]), atouSafe(f[5])
+					if f[1] == "k" || f[1] == "h" {
+						wp, wm = 19, 784931
+					}
+					// the constructor chain is SetKey.SetP.SetM on a fresh builder: an illegal p latches the error
+					if wp <= 32 {
+						cp = wp
+						if wm <= 4294967295 {
+							cm = wm
+						}
+					}
+					continue
 				}
 				switch op[0] {
 				case 'p':
